@@ -487,7 +487,11 @@ func runHostile(c *mon.Ctx, reg *registry, nbase, k, parallel int) {
 					clean = false
 					wit := w()
 					wit["detail"] = r.Detail
-					c.Violate("decoded-value-unstable|"+r.Stab+"|"+hc.c.name, wit)
+					name := hc.c.name
+					if strings.HasSuffix(r.Stab, "-error") {
+						name = innermostCtor(reg, hc.c.pkg, r.Detail, name)
+					}
+					c.Violate("decoded-value-unstable|"+r.Stab+"|"+name, wit)
 				}
 				if hc.class == "valid" && r.Err == 1 {
 					// the round-trip arm reports this defect with the value; only counted here
@@ -499,6 +503,9 @@ func runHostile(c *mon.Ctx, reg *registry, nbase, k, parallel int) {
 			}
 			if clean {
 				cleanupBatch(c, bt.name)
+			}
+			for i := range bt.cases {
+				bt.cases[i].payload, bt.cases[i].chain = nil, nil // release (bt.cases aliases the big case list)
 			}
 		}(bt)
 	}
